@@ -2,92 +2,141 @@
 (***************************************************************************)
 (* Identity model of periodictable.core (property C08): tables, the        *)
 (* identity-preserving caches (PeriodicTable._element, Element._isotopes,  *)
-(* IonSet.ionset), the table registry used by pickle, and change_table.    *)
-(* The heap is a set of objects [id, tab, z, a, q]; elements and isotopes  *)
-(* are created when a table is built (isotopes by the mass loader, D and T *)
-(* by the constructor), ions on first use.  Every lookup route is a        *)
-(* function from the heap to an object id or "raise".                      *)
+(* IonSet.ionset), the table registry used by pickle (PRIVATE_TABLES), and *)
+(* change_table.                                                           *)
+(*                                                                         *)
+(* The heap is a set of objects [tab, z, a, q, gen]: gen is the number of  *)
+(* objects with the same key that existed when it was created, so two      *)
+(* objects for one key are two heap members (and OneObjectPerKey fails),   *)
+(* while the state does not depend on the order of creation.  As in the    *)
+(* code:                                                                   *)
+(*  - `import periodictable` is the initial state: the public table is     *)
+(*    built, registered and its isotopes are created by mass.init;         *)
+(*  - PeriodicTable(name) creates the elements and the constructor's own   *)
+(*    isotopes (D and T) only;                                             *)
+(*  - mass.init(table) creates the isotopes of the mass table (through     *)
+(*    add_isotope, so an isotope that exists is kept);                     *)
+(*  - Element.add_isotope(a) returns the cached isotope or creates it;     *)
+(*  - ions are created on first use by IonSet.__getitem__;                 *)
+(*  - pickle / deepcopy restore through the registry and the same caches;  *)
+(*  - change_table follows the same routes in the other table.             *)
+(* Every lookup route is a function from the heap to an object id or       *)
+(* "raise".  `act` is an observation variable (the call just made); the    *)
+(* exhaustive configuration hides it with a VIEW, the simulation           *)
+(* configuration prints it so the behaviour can be replayed in the code.   *)
 (***************************************************************************)
 EXTENDS Integers, FiniteSets, Sequences, TLC
-CONSTANTS TabNames,     \* table names that may exist, "pub" among them
+CONSTANTS TabNames,     \* names of private tables that may be created
           Zs,           \* atomic numbers of the (small) universe
-          IsoOf(_),     \* Z -> set of mass numbers
-          IonOf(_),     \* Z -> set of charges (never 0)
-          MaxId
-VARIABLES heap, registry, nextid, last
-vars == <<heap, registry, nextid, last>>
+          CtorIso(_),   \* Z -> isotopes the PeriodicTable constructor creates (D, T)
+          IsoOf(_),     \* Z -> isotopes the mass loader creates
+          ExtraIso(_),  \* Z -> further mass numbers a caller may add with add_isotope
+          IonOf(_)      \* Z -> set of valid charges (never 0)
+VARIABLES heap, registry, massed, last, act
+vars == <<heap, registry, massed, last, act>>
 
-Keys(T) == {[tab |-> T, z |-> z, a |-> 0, q |-> 0] : z \in Zs}
-           \cup {[tab |-> T, z |-> z, a |-> a, q |-> 0] : z \in Zs, a \in UNION {IsoOf(y) : y \in Zs}}
+Pub == "public"
+AllTabs == TabNames \cup {Pub}
+AllIso == UNION {CtorIso(z) \cup IsoOf(z) \cup ExtraIso(z) : z \in Zs}
 Obj(T, z, a, q) == {o \in heap : o.tab = T /\ o.z = z /\ o.a = a /\ o.q = q}
 Exists(T, z, a, q) == Obj(T, z, a, q) # {}
-IdOf(T, z, a, q) == (CHOOSE o \in Obj(T, z, a, q) : TRUE).id
-ValidBase(z, a) == z \in Zs /\ (a = 0 \/ a \in IsoOf(z))
+New(T, z, a, q) == [tab |-> T, z |-> z, a |-> a, q |-> q, gen |-> Cardinality(Obj(T, z, a, q))]
+Alloc(T, ks) == {New(T, k.z, k.a, 0) : k \in ks}
+CtorKeys == {[z |-> z, a |-> 0] : z \in Zs} \cup {k \in [z : Zs, a : AllIso] : k.a \in CtorIso(k.z)}
+MassKeys == {k \in [z : Zs, a : AllIso] : k.a \in IsoOf(k.z)}
+A(op, T, z, a, q, sT) == [op |-> op, T |-> T, z |-> z, a |-> a, q |-> q, sT |-> sT]
 
-Init == /\ heap = {} /\ registry = {} /\ nextid = 1 /\ last = "init"
+Init == /\ heap = {[tab |-> Pub, z |-> k.z, a |-> k.a, q |-> 0, gen |-> 0] : k \in CtorKeys \cup MassKeys}
+        /\ registry = {Pub} /\ massed = {Pub}
+        /\ last = "init" /\ act = A("import", Pub, 0, 0, 0, "")
 
-\* PeriodicTable(name): refuses a registered name; creates elements and isotopes once each
+\* PeriodicTable(name): refuses a registered name; creates the elements, D and T
 NewTable(T) ==
-  /\ nextid + Cardinality({k \in Keys(T) : ValidBase(k.z, k.a)}) <= MaxId
+  /\ act' = A("NewTable", T, 0, 0, 0, "")
   /\ IF T \in registry
-     THEN /\ UNCHANGED <<heap, registry, nextid>> /\ last' = "raise"
-     ELSE LET ks == {k \in Keys(T) : ValidBase(k.z, k.a)}
-              Before(x, y) == x.z < y.z \/ (x.z = y.z /\ x.a < y.a)
-              num == [k \in ks |-> nextid + Cardinality({x \in ks : Before(x, k)})]
-          IN /\ heap' = heap \cup {[id |-> num[k], tab |-> T, z |-> k.z, a |-> k.a, q |-> 0] : k \in ks}
-             /\ registry' = registry \cup {T}
-             /\ nextid' = nextid + Cardinality(ks)
+     THEN /\ UNCHANGED <<heap, registry, massed>> /\ last' = "raise"
+     ELSE /\ heap' = heap \cup Alloc(T, CtorKeys)
+          /\ registry' = registry \cup {T}
+          /\ UNCHANGED massed
+          /\ last' = "ok"
+
+\* mass.init(table): isotopes of the mass table, through add_isotope (existing ones are kept);
+\* a second call returns at once
+LoadMass(T) ==
+  /\ T \in registry
+  /\ act' = A("LoadMass", T, 0, 0, 0, "")
+  /\ LET mk == {k \in MassKeys : ~Exists(T, k.z, k.a, 0)}
+     IN IF T \in massed THEN UNCHANGED <<heap, massed>> /\ last' = "ok"
+        ELSE /\ heap' = heap \cup Alloc(T, mk)
+             /\ massed' = massed \cup {T}
              /\ last' = "ok"
+  /\ UNCHANGED registry
+
+\* Element.add_isotope(a): the cached isotope, or a new one
+AddIsotope(T, z, a) ==
+  /\ T \in registry
+  /\ act' = A("AddIsotope", T, z, a, 0, "")
+  /\ IF Exists(T, z, a, 0) THEN UNCHANGED heap /\ last' = "found"
+     ELSE /\ heap' = heap \cup {New(T, z, a, 0)} /\ last' = "created"
+  /\ UNCHANGED <<registry, massed>>
 
 \* element / isotope lookups never create anything
 LookupBase(T, z, a) ==
   /\ T \in registry
-  /\ UNCHANGED <<heap, registry, nextid>>
-  /\ last' = IF ValidBase(z, a) /\ Exists(T, z, a, 0) THEN "found" ELSE "raise"
+  /\ act' = A("LookupBase", T, z, a, 0, "")
+  /\ UNCHANGED <<heap, registry, massed>>
+  /\ last' = IF Exists(T, z, a, 0) THEN "found" ELSE "raise"
 
-\* IonSet.__getitem__: cache hit, else validate, else create
+\* IonSet.__getitem__ on element or isotope: base must exist; cache hit, else validate, else create
 GetIon(T, z, a, q) ==
-  /\ T \in registry /\ ValidBase(z, a) /\ nextid < MaxId
-  /\ IF Exists(T, z, a, q)
-     THEN UNCHANGED <<heap, nextid>> /\ last' = "found"
-     ELSE IF q \notin IonOf(z)
-          THEN UNCHANGED <<heap, nextid>> /\ last' = "raise"
-          ELSE /\ heap' = heap \cup {[id |-> nextid, tab |-> T, z |-> z, a |-> a, q |-> q]}
-               /\ nextid' = nextid + 1 /\ last' = "created"
-  /\ UNCHANGED registry
+  /\ T \in registry
+  /\ act' = A("GetIon", T, z, a, q, "")
+  /\ IF ~Exists(T, z, a, 0) THEN UNCHANGED heap /\ last' = "raise"
+     ELSE IF q # 0 /\ Exists(T, z, a, q) THEN UNCHANGED heap /\ last' = "found"
+     ELSE IF q \notin IonOf(z) THEN UNCHANGED heap /\ last' = "raise"      \* including q = 0
+     ELSE /\ heap' = heap \cup {New(T, z, a, q)} /\ last' = "created"
+  /\ UNCHANGED <<registry, massed>>
 
-\* pickle.loads(pickle.dumps(o)) / deepcopy(o): __reduce__ names (table, z, a, q); _make_* resolves through the registry
+\* pickle.loads(pickle.dumps(o)) / deepcopy(o): __reduce__ names (table, z, a, q); _make_* resolves
+\* through the registry and the caches.  (Objects are never removed, so the object is found again.)
 Restore(o) ==
-  /\ nextid < MaxId
-  /\ IF o.tab \notin registry
-     THEN UNCHANGED <<heap, nextid>> /\ last' = "raise"
-     ELSE IF o.q = 0 THEN UNCHANGED <<heap, nextid>> /\ last' = "found"
-     ELSE IF Exists(o.tab, o.z, o.a, o.q) THEN UNCHANGED <<heap, nextid>> /\ last' = "found"
-     ELSE /\ heap' = heap \cup {[id |-> nextid, tab |-> o.tab, z |-> o.z, a |-> o.a, q |-> o.q]}
-          /\ nextid' = nextid + 1 /\ last' = "created"
-  /\ UNCHANGED registry
+  /\ act' = A("Restore", o.tab, o.z, o.a, o.q, "")
+  /\ IF o.tab \notin registry \/ ~Exists(o.tab, o.z, o.a, o.q)
+     THEN last' = "raise" ELSE last' = "found"
+  /\ UNCHANGED <<heap, registry, massed>>
 
-\* change_table(atom, table2): the atom with the same Z, A, charge in table2
+\* change_table(atom, table2): the atom with the same Z, A, charge in table2; the base must exist there,
+\* the ion is created on demand
 ChangeTable(o, T2) ==
-  /\ T2 \in registry /\ nextid < MaxId
-  /\ IF o.q = 0 \/ Exists(T2, o.z, o.a, o.q) THEN UNCHANGED <<heap, nextid>> /\ last' = "found"
-     ELSE /\ heap' = heap \cup {[id |-> nextid, tab |-> T2, z |-> o.z, a |-> o.a, q |-> o.q]}
-          /\ nextid' = nextid + 1 /\ last' = "created"
-  /\ UNCHANGED registry
+  /\ T2 \in registry
+  /\ act' = A("ChangeTable", T2, o.z, o.a, o.q, o.tab)
+  /\ IF ~Exists(T2, o.z, o.a, 0) THEN UNCHANGED heap /\ last' = "raise"
+     ELSE IF Exists(T2, o.z, o.a, o.q) THEN UNCHANGED heap /\ last' = "found"
+     ELSE /\ heap' = heap \cup {New(T2, o.z, o.a, o.q)} /\ last' = "created"
+  /\ UNCHANGED <<registry, massed>>
 
 Charges == UNION {IonOf(z) : z \in Zs} \cup {0, 9}
-Next == \/ \E T \in TabNames : NewTable(T)
-        \/ \E T \in TabNames, z \in Zs \cup {-1, 999}, a \in UNION {IsoOf(y) : y \in Zs} \cup {0, 777} : LookupBase(T, z, a)
-        \/ \E T \in TabNames, z \in Zs, a \in UNION {IsoOf(y) : y \in Zs} \cup {0}, q \in Charges : GetIon(T, z, a, q)
+Next == \/ \E T \in AllTabs : NewTable(T)
+        \/ \E T \in AllTabs : LoadMass(T)
+        \/ \E T \in AllTabs, z \in Zs : \E a \in CtorIso(z) \cup IsoOf(z) \cup ExtraIso(z) : AddIsotope(T, z, a)
+        \/ \E T \in AllTabs, z \in Zs \cup {-1, 999}, a \in AllIso \cup {0, 777} : LookupBase(T, z, a)
+        \/ \E T \in AllTabs, z \in Zs, a \in AllIso \cup {0}, q \in Charges : GetIon(T, z, a, q)
         \/ \E o \in heap : Restore(o)
-        \/ \E o \in heap, T2 \in TabNames : ChangeTable(o, T2)
+        \/ \E o \in heap, T2 \in AllTabs : ChangeTable(o, T2)
 Spec == Init /\ [][Next]_vars
+NoAct == <<heap, registry, massed, last>>     \* VIEW of the exhaustive configuration
 
 \* ---- properties ------------------------------------------------------------
-OneObjectPerKey == \A o1, o2 \in heap : (o1.tab = o2.tab /\ o1.z = o2.z /\ o1.a = o2.a /\ o1.q = o2.q) => o1.id = o2.id
-IdsUnique == \A o1, o2 \in heap : o1.id = o2.id => o1 = o2
-FieldsValid == \A o \in heap : o.tab \in registry /\ ValidBase(o.z, o.a) /\ (o.q = 0 \/ o.q \in IonOf(o.z))
+OneObjectPerKey == \A o1, o2 \in heap : (o1.tab = o2.tab /\ o1.z = o2.z /\ o1.a = o2.a /\ o1.q = o2.q) => o1 = o2
+FieldsValid == \A o \in heap : /\ o.tab \in registry /\ o.z \in Zs
+                               /\ (o.a = 0 \/ o.a \in AllIso)
+                               /\ (o.q = 0 \/ o.q \in IonOf(o.z))
+                               /\ (o.q # 0 => Exists(o.tab, o.z, o.a, 0))           \* an ion's base is in the same table
+MassedHasIsotopes == \A T \in massed, k \in MassKeys : Exists(T, k.z, k.a, 0)
+RegisteredHasElements == \A T \in registry, z \in Zs : Exists(T, z, 0, 0)
 ObjectsAreForever == [][heap \subseteq heap']_vars
 FailureCreatesNothing == [][last' = "raise" => heap' = heap]_vars
 FoundCreatesNothing == [][last' = "found" => heap' = heap]_vars
+CreatedIsOneNewObject == [][last' = "created" => Cardinality(heap' \ heap) = 1]_vars
+RestoreIsIdentity == [][act'.op = "Restore" => last' = "found"]_vars
 =============================================================================
